@@ -38,7 +38,9 @@ class InterpND:
             idx = 0
             tmp = np.zeros((self.n_dim, 2))
             for j, idx_i in enumerate(i):
-                idx = idx + idx_i * 2**j
+                # same corner order as itertools.product in intgral_step:
+                # the first dimension is the most significant bit
+                idx = idx + idx_i * 2 ** (self.n_dim - 1 - j)
                 if idx_i == 0:
                     tmp[j] = [1, -1]
                 else:
